@@ -1,0 +1,66 @@
+//go:build verif
+
+package services
+
+// Contracts for the UDP amplification limit (property C10), checked by /verif/govc.
+// Comment-only file: it adds nothing to any build.
+//
+// Ghost state comes from assumed contracts: conn.written counts response units written to a
+// connection, bucket.granted counts the grants a token bucket has handed out, and a sync.Map
+// is seen as the ghost map (ghas, gstore). raddr/network are the (immutable) address functions.
+//
+//@ spec isUDP(conn net.Conn) bool = network(raddr(conn)) == "udp"
+//@ uf ipkey(net.IP) string
+//
+//@ func NewLimiter
+//@   check safety
+//@   ensures result != nil && fresh(result) && result.burst == 4
+//@   modifies nothing
+//
+// Allow(addr): the bucket is keyed by the IP text alone (never the port), it is the first bucket
+// stored under that key, other keys' buckets are untouched, and a true answer is one grant of it.
+//@ spec limOK(l *Limiter) bool = (forall k any :: addr(l.m).ghas[k] ==> typeis(addr(l.m).gstore[k], *rate.Limiter) && unbox(addr(l.m).gstore[k], *rate.Limiter) != nil) && (forall k1 any, k2 any :: addr(l.m).ghas[k1] && addr(l.m).ghas[k2] && k1 != k2 ==> unbox(addr(l.m).gstore[k1], *rate.Limiter) != unbox(addr(l.m).gstore[k2], *rate.Limiter))
+//@ spec stored(l *Limiter) bool = forall k any :: addr(l.m).ghas[k] ==> !fresh(unbox(addr(l.m).gstore[k], *rate.Limiter))
+//@ spec grantsOf(l *Limiter, key string) int = unbox(addr(l.m).gstore[any(key)], *rate.Limiter).granted
+//@ spec hasKey(l *Limiter, key string) bool = addr(l.m).ghas[any(key)]
+//
+//@ func (*Limiter).Allow
+//@   check safety
+//@   physical limOK(l) && stored(l) && 0 <= totalgrants && totalgrants < 1<<49
+//@   ensures [inv] limOK(l)
+//@   ensures [total] (result ==> totalgrants == old(totalgrants) + 1) && (!result ==> totalgrants == old(totalgrants))
+//@   ensures [other-kinds] !typeis(ip, *net.TCPAddr) && !typeis(ip, *net.UDPAddr) ==> !result
+//@   ensures [udp-key] typeis(ip, *net.UDPAddr) ==> hasKey(l, ipstr(unbox(ip, *net.UDPAddr).IP))
+//@   ensures [udp-grant] typeis(ip, *net.UDPAddr) && old(hasKey(l, ipstr(unbox(ip, *net.UDPAddr).IP))) && result ==> grantsOf(l, ipstr(unbox(ip, *net.UDPAddr).IP)) == old(grantsOf(l, ipstr(unbox(ip, *net.UDPAddr).IP))) + 1
+//@   ensures [udp-first-grant] typeis(ip, *net.UDPAddr) && !old(hasKey(l, ipstr(unbox(ip, *net.UDPAddr).IP))) && result ==> grantsOf(l, ipstr(unbox(ip, *net.UDPAddr).IP)) == 1
+//@   ensures [udp-deny] typeis(ip, *net.UDPAddr) && old(hasKey(l, ipstr(unbox(ip, *net.UDPAddr).IP))) && !result ==> grantsOf(l, ipstr(unbox(ip, *net.UDPAddr).IP)) == old(grantsOf(l, ipstr(unbox(ip, *net.UDPAddr).IP)))
+//@   ensures [tcp-key] typeis(ip, *net.TCPAddr) ==> hasKey(l, ipstr(unbox(ip, *net.TCPAddr).IP))
+//@   ensures [others-untouched] forall k string :: (typeis(ip, *net.UDPAddr) ==> k != ipstr(unbox(ip, *net.UDPAddr).IP)) && (typeis(ip, *net.TCPAddr) ==> k != ipstr(unbox(ip, *net.TCPAddr).IP)) && old(hasKey(l, k)) ==> hasKey(l, k) && grantsOf(l, k) == old(grantsOf(l, k))
+//@   check frame
+//@   modifies ghost(ghas), ghost(gstore), ghost(granted), totalgrants
+//
+// The rate-limited UDP handlers: for a UDP peer every response unit written to the connection is
+// paid for by its own grant, and every limiter query is made for this connection's remote address
+// (the bucket is then that address's IP, see Allow above). limOK is the Limiter's object invariant:
+// NewLimiter starts with an empty map and Allow, its only mutator, is proved to preserve it.
+//@ func (*tftpService).Handle
+//@   physical limOK(s.limiter) && stored(s.limiter) && 0 <= conn.written && conn.written < 1<<49 && 0 <= totalgrants && totalgrants < 1<<49
+//@   requires conn != nil
+//@   callpre (*Limiter).Allow: ip == raddr(conn)
+//@   ensures [amp] isUDP(conn) ==> conn.written - old(conn.written) <= totalgrants - old(totalgrants)
+//@   modifies *
+//
+//@ func (*memcachedService).Handle
+//@   physical limOK(s.limiter) && stored(s.limiter) && 0 <= conn.written && conn.written < 1<<49 && 0 <= totalgrants && totalgrants < 1<<49
+//@   requires conn != nil
+//@   callpre (*Limiter).Allow: ip == raddr(conn)
+//@   ensures [amp] isUDP(conn) ==> conn.written - old(conn.written) <= totalgrants - old(totalgrants)
+//@   modifies *
+//@   loop 1: invariant isUDP(conn) ==> conn.written - old(conn.written) <= totalgrants - old(totalgrants)
+//
+//@ func (*counterStrikeService).Handle
+//@   physical limOK(s.limiter) && stored(s.limiter) && 0 <= conn.written && conn.written < 1<<49 && 0 <= totalgrants && totalgrants < 1<<49
+//@   requires conn != nil
+//@   callpre (*Limiter).Allow: ip == raddr(conn)
+//@   ensures [amp] isUDP(conn) ==> conn.written - old(conn.written) <= totalgrants - old(totalgrants)
+//@   modifies *
